@@ -102,4 +102,26 @@ DmgClass(M, kind, flds, d) ==
     CASE d.c = "set" -> flds[d.a].nm \o ":" \o ClassName(flds[d.a].ty, d.b)
       [] d.c = "variant" -> "variant:" \o Variants(M, kind)[d.a][1]
       [] OTHER -> d.c
+
+(* ---- an intact instance and one damaged file in it ----
+   I == IntactOf(i): the model's directory and what the readers make of it.  Root modules keep the tuple of all
+   IntactOf(i) in a zero-arity definition of their own: TLC evaluates such a definition once only when it is in
+   the root module, and evaluating it costs as much as a few hundred transitions. *)
+IntactOf(i) == LET D == DirOf(Models[i]) IN [dir |-> D, P |-> ParseDir(D, FeatCfg(D.featparams))]
+PresentKinds(D) == {Kinds[i] : i \in {j \in 1 .. Len(Kinds) : Present(D[Kinds[j]])}}
+FldsOf(I, k) == IF k = "featparams" THEN <<Fld("text", 0, "data", I.dir.featparams.len)>> ELSE I.P[k].flds
+DamagedFile(M, I, k, d) == Apply(M, k, I.dir[k], FldsOf(I, k), d, M.be)
+(* the directory with file k replaced by f: only what depends on f is read again (a senone dump is read against
+   the codebooks and the model definition) *)
+ParseWith(I, k, f) ==
+    LET D == [I.dir EXCEPT ![k] = f]
+        P0 == I.P
+    IN  IF k \in {"mdef", "means"} THEN ParseDir(D, P0.fp)
+        ELSE IF k = "featparams" THEN [P0 EXCEPT !.fp = FeatCfg(f)]
+        ELSE IF k = "variances" THEN [P0 EXCEPT !.variances = Gauden(f)]
+        ELSE IF k = "tmat" THEN [P0 EXCEPT !.tmat = Tmat(f)]
+        ELSE IF k = "lda" THEN [P0 EXCEPT !.lda = IF Present(f) THEN Lda(f) ELSE [st |-> "absent"]]
+        ELSE IF k = "sendump" THEN [P0 EXCEPT !.sendump = IF Present(f) THEN Sendump(f, [n_feat |-> P0.means.d.n_feat, n_density |-> P0.means.d.n_density,
+                                                                                             n_sen |-> P0.mdef.d.n_sen]) ELSE [st |-> "absent"]]
+        ELSE [P0 EXCEPT !.mixw = IF Present(f) THEN Mixw(f) ELSE [st |-> "absent"]]
 =============================================================================
